@@ -45,9 +45,13 @@ const (
 // Reader kinds: every decode is repeated with each of them; the result must not depend on it.
 // In-memory readers exposing Len()/Seek/ReadAt, and opaque streaming readers that only have Read.
 var readerKinds = []string{"bytes.Reader", "bytes.Buffer", "strings.Reader", "opaque io.Reader (no Len)",
-	"iotest.OneByteReader", "iotest.HalfReader", "iotest.DataErrReader"}
+	"iotest.OneByteReader", "iotest.HalfReader", "iotest.DataErrReader", "file on disk (Load / bufio.Reader over *os.File)"}
 
-const kindAll = 15
+const kindFile = 7
+const kindAll = 15 // every reader kind
+const kindBig = 14 // big files: bytes.Reader, opaque reader, file on disk
+
+var bigKinds = []int{0, 3, kindFile}
 
 func mkReader(kind int, data []byte) io.Reader {
 	switch kind {
@@ -82,14 +86,23 @@ func sameObservables(a, b outcome) bool {
 // decodeKinds decodes with one reader kind, or (kindAll) with every kind and folds the outcomes: identical ->
 // that outcome; a crash under some reader -> that crash; otherwise class clsDep.
 func decodeKinds(format string, data []byte, kind int) outcome {
-	if kind != kindAll {
+	var kinds []int
+	switch kind {
+	case kindAll:
+		for k := range readerKinds {
+			kinds = append(kinds, k)
+		}
+	case kindBig:
+		kinds = bigKinds
+	default:
 		return decodeHere(format, data, kind)
 	}
-	first := decodeHere(format, data, 0)
-	total := first.Micros
-	for k := 1; k < len(readerKinds); k++ {
+	first := decodeHere(format, data, kinds[0])
+	total, totalCPU := first.Micros, first.CpuUs
+	for _, k := range kinds[1:] {
 		o := decodeHere(format, data, k)
 		total += o.Micros
+		totalCPU += o.CpuUs
 		if sameObservables(first, o) {
 			continue
 		}
@@ -111,72 +124,80 @@ func decodeKinds(format string, data []byte, kind int) outcome {
 
 const memCapBytes = 3 << 30 // address-space cap of a decoding process
 
-var formats = []string{"stl", "ply", "pts", "splat", "spz"}
+// "plyc": ply.MeshReader with a caller-made configuration (no LoadUnspecifiedProperties, own property list);
+// "spzh": spz.ReadHeader (gzip + the 16 header bytes only)
+var formats = []string{"stl", "ply", "pts", "splat", "spz", "plyc", "spzh"}
 
 type outcome struct {
-	Cls    int      `json:"cls"`
-	Msg    string   `json:"msg,omitempty"`
-	HasErr bool     `json:"has_err,omitempty"` // .splat returns data AND an error
-	N      int      `json:"n"`                 // AttributeLength of the returned mesh
-	Digest string   `json:"digest,omitempty"`  // bit-exact digest of the returned mesh
-	Recs   []string `json:"recs,omitempty"`    // .splat: one digest per returned splat
-	Pts    string   `json:"pts,omitempty"`     // pts: the result as a Coq term of type pts_result
-	Micros int64    `json:"us"`                // decode time measured inside the child
-	PeakMB int64    `json:"peak_mb,omitempty"` // filled in by the parent for hostile cases
+	Cls     int      `json:"cls"`
+	Msg     string   `json:"msg,omitempty"`
+	HasErr  bool     `json:"has_err,omitempty"` // .splat returns data AND an error
+	N       int      `json:"n"`                 // AttributeLength of the returned mesh
+	Digest  string   `json:"digest,omitempty"`  // bit-exact digest of the returned mesh
+	Recs    []string `json:"recs,omitempty"`    // .splat: one digest per returned splat
+	Pts     string   `json:"pts,omitempty"`     // pts: the result as a Coq term of type pts_result
+	Micros  int64    `json:"us"`                // decode wall time measured inside the child
+	CpuUs   int64    `json:"cpu_us"`            // CPU time (user+system, whole process) of the decode: robust to machine load
+	Starved bool     `json:"-"`                 // parent only: no answer within the wall limit although the CPU budget was not used up
+	PeakMB  int64    `json:"peak_mb,omitempty"` // filled in by the parent for hostile cases
 }
 
 // ---------- canonical digest of a mesh (bit-exact) ----------
+// topology, indices, and the bit pattern of every value of every attribute (names sorted); binary encoding, one
+// hash at the end: a decode of a megabyte file is digested in a few milliseconds
+func f64(b []byte, v float64) []byte { return binary.LittleEndian.AppendUint64(b, math.Float64bits(v)) }
+
 func meshDigest(m modeling.Mesh) string {
-	var b strings.Builder
-	fmt.Fprintf(&b, "T%d|I", int(m.Topology()))
+	b := make([]byte, 0, 1<<12)
+	b = append(b, fmt.Sprintf("T%d|I", int(m.Topology()))...)
 	idx := m.Indices()
 	for i := 0; i < idx.Len(); i++ {
-		fmt.Fprintf(&b, "%d,", idx.At(i))
+		b = binary.AppendVarint(b, int64(idx.At(i)))
 	}
 	names := m.Float1Attributes()
 	sort.Strings(names)
 	for _, n := range names {
-		fmt.Fprintf(&b, "|1:%s:", n)
 		a := m.Float1Attribute(n)
+		b = append(b, fmt.Sprintf("|1:%s:%d:", n, a.Len())...)
 		for i := 0; i < a.Len(); i++ {
-			fmt.Fprintf(&b, "%x,", math.Float64bits(a.At(i)))
+			b = f64(b, a.At(i))
 		}
 	}
 	names = m.Float2Attributes()
 	sort.Strings(names)
 	for _, n := range names {
-		fmt.Fprintf(&b, "|2:%s:", n)
 		a := m.Float2Attribute(n)
+		b = append(b, fmt.Sprintf("|2:%s:%d:", n, a.Len())...)
 		for i := 0; i < a.Len(); i++ {
 			v := a.At(i)
-			fmt.Fprintf(&b, "%x/%x,", math.Float64bits(v.X()), math.Float64bits(v.Y()))
+			b = f64(f64(b, v.X()), v.Y())
 		}
 	}
 	names = m.Float3Attributes()
 	sort.Strings(names)
 	for _, n := range names {
-		fmt.Fprintf(&b, "|3:%s:", n)
 		a := m.Float3Attribute(n)
+		b = append(b, fmt.Sprintf("|3:%s:%d:", n, a.Len())...)
 		for i := 0; i < a.Len(); i++ {
 			v := a.At(i)
-			fmt.Fprintf(&b, "%x/%x/%x,", math.Float64bits(v.X()), math.Float64bits(v.Y()), math.Float64bits(v.Z()))
+			b = f64(f64(f64(b, v.X()), v.Y()), v.Z())
 		}
 	}
 	names = m.Float4Attributes()
 	sort.Strings(names)
 	for _, n := range names {
-		fmt.Fprintf(&b, "|4:%s:", n)
 		a := m.Float4Attribute(n)
+		b = append(b, fmt.Sprintf("|4:%s:%d:", n, a.Len())...)
 		for i := 0; i < a.Len(); i++ {
 			v := a.At(i)
-			fmt.Fprintf(&b, "%x/%x/%x/%x,", math.Float64bits(v.X()), math.Float64bits(v.Y()), math.Float64bits(v.Z()), math.Float64bits(v.W()))
+			b = f64(f64(f64(f64(b, v.X()), v.Y()), v.Z()), v.W())
 		}
 	}
-	h := sha1.Sum([]byte(b.String()))
+	h := sha1.Sum(b)
 	return hex.EncodeToString(h[:8])
 }
 
-// one digest per splat: every attribute of point i
+// one digest per splat: the bit patterns of every attribute of point i (64-bit FNV-1a; attribute names sorted)
 func splatRecords(m modeling.Mesh) []string {
 	n := m.AttributeLength()
 	out := make([]string, n)
@@ -186,21 +207,27 @@ func splatRecords(m modeling.Mesh) []string {
 	sort.Strings(f4)
 	f1 := m.Float1Attributes()
 	sort.Strings(f1)
+	mix := func(h uint64, v float64) uint64 {
+		w := math.Float64bits(v)
+		for s := 0; s < 64; s += 8 {
+			h = (h ^ (w >> s & 0xff)) * 1099511628211
+		}
+		return h
+	}
 	for i := 0; i < n; i++ {
-		var b strings.Builder
-		for _, name := range f3 {
+		h := uint64(14695981039346656037)
+		for k, name := range f3 {
 			v := m.Float3Attribute(name).At(i)
-			fmt.Fprintf(&b, "%s:%x/%x/%x|", name, math.Float64bits(v.X()), math.Float64bits(v.Y()), math.Float64bits(v.Z()))
+			h = mix(mix(mix(h^uint64(k+1), v.X()), v.Y()), v.Z())
 		}
-		for _, name := range f4 {
+		for k, name := range f4 {
 			v := m.Float4Attribute(name).At(i)
-			fmt.Fprintf(&b, "%s:%x/%x/%x/%x|", name, math.Float64bits(v.X()), math.Float64bits(v.Y()), math.Float64bits(v.Z()), math.Float64bits(v.W()))
+			h = mix(mix(mix(mix(h^uint64(k+101), v.X()), v.Y()), v.Z()), v.W())
 		}
-		for _, name := range f1 {
-			fmt.Fprintf(&b, "%s:%x|", name, math.Float64bits(m.Float1Attribute(name).At(i)))
+		for k, name := range f1 {
+			h = mix(h^uint64(k+201), m.Float1Attribute(name).At(i))
 		}
-		h := sha1.Sum([]byte(b.String()))
-		out[i] = hex.EncodeToString(h[:6])
+		out[i] = strconv.FormatUint(h, 36)
 	}
 	return out
 }
@@ -251,9 +278,46 @@ func ptsResultCoq(m *modeling.Mesh) string {
 	return fmt.Sprintf("{| p_n := %d; p_pos := %s; p_int := %s; p_col := %s |}", n, pos, in, col)
 }
 
+// the caller-made PLY reader configuration of format "plyc" (MeshReader.Read / MeshReader.Load with
+// LoadUnspecifiedProperties off and its own property list)
+var customPly = ply.MeshReader{
+	AttributeElement:          ply.VertexElementName,
+	LoadUnspecifiedProperties: false,
+	Properties: []ply.PropertyReader{
+		&ply.Vector3PropertyReader{ModelAttribute: "P", PlyPropertyX: "x", PlyPropertyY: "y", PlyPropertyZ: "z"},
+		&ply.Vector2PropertyReader{ModelAttribute: "ST", PlyPropertyX: "s", PlyPropertyY: "t"},
+		&ply.Vector1PropertyReader{ModelAttribute: "Label", PlyProperty: "label"},
+		&ply.Vector1PropertyReader{ModelAttribute: "Quality", PlyProperty: "quality"},
+		&ply.Vector4PropertyReader{ModelAttribute: "RGBA", PlyPropertyX: "red", PlyPropertyY: "green", PlyPropertyZ: "blue", PlyPropertyW: "alpha"},
+	},
+}
+
+func selfCPU() int64 {
+	var ru syscall.Rusage
+	if syscall.Getrusage(syscall.RUSAGE_SELF, &ru) != nil {
+		return 0
+	}
+	return (ru.Utime.Sec+ru.Stime.Sec)*1e6 + int64(ru.Utime.Usec+ru.Stime.Usec)
+}
+
+var tmpSeq int
+
+// the prefix as a file on disk (reader kind "file"): the path-taking entry points open it themselves
+func writeTemp(data []byte) (string, error) {
+	dir := os.Getenv("C14_TMP")
+	if dir == "" {
+		dir = os.TempDir()
+	}
+	tmpSeq++
+	path := fmt.Sprintf("%s/c14-%d-%d.bin", dir, os.Getpid(), tmpSeq%2)
+	return path, os.WriteFile(path, data, 0o600)
+}
+
 // decodeHere runs the real decoder in this process under recover().
 func decodeHere(format string, data []byte, kind int) (o outcome) {
 	t0 := time.Now()
+	c0 := selfCPU()
+	var tmpPath string
 	defer func() {
 		if rec := recover(); rec != nil {
 			if _, isRt := rec.(runtime.Error); isRt {
@@ -262,22 +326,58 @@ func decodeHere(format string, data []byte, kind int) (o outcome) {
 				o = outcome{Cls: clsErr, Msg: fmt.Sprint(rec)}
 			}
 		}
+		if tmpPath != "" {
+			os.Remove(tmpPath)
+		}
 		o.Micros = time.Since(t0).Microseconds()
+		o.CpuUs = selfCPU() - c0
 		if len(o.Msg) > 200 {
 			o.Msg = o.Msg[:200]
 		}
 	}()
 	var m *modeling.Mesh
 	var err error
+	var rd io.Reader
+	if kind == kindFile {
+		var werr error
+		if tmpPath, werr = writeTemp(data); werr != nil {
+			return outcome{Cls: clsCrash, Msg: "harness: cannot write the temporary file: " + werr.Error()}
+		}
+		switch format {
+		case "pts", "splat", "spzh": // no path-taking entry point: what such a Load would do
+			f, oerr := os.Open(tmpPath)
+			if oerr != nil {
+				return outcome{Cls: clsCrash, Msg: "harness: " + oerr.Error()}
+			}
+			defer f.Close()
+			rd = bufio.NewReader(f)
+		}
+	} else {
+		rd = mkReader(kind, data)
+	}
 	switch format {
 	case "stl":
-		m, err = stl.ReadMesh(mkReader(kind, data))
+		if kind == kindFile {
+			m, err = stl.Load(tmpPath)
+		} else {
+			m, err = stl.ReadMesh(rd)
+		}
 	case "ply":
-		m, err = ply.ReadMesh(mkReader(kind, data))
+		if kind == kindFile {
+			m, err = ply.Load(tmpPath)
+		} else {
+			m, err = ply.ReadMesh(rd)
+		}
+	case "plyc":
+		if kind == kindFile {
+			m, err = customPly.Load(tmpPath)
+		} else {
+			m, err = customPly.Read(rd)
+		}
 	case "pts":
-		m, err = pts.ReadPointCloud(mkReader(kind, data))
+		m, err = pts.ReadPointCloud(rd)
 	case "splat":
-		mm, e := splat.Read(mkReader(kind, data))
+		mm, e := splat.Read(rd)
 		o = outcome{Cls: clsOk, HasErr: e != nil, N: mm.AttributeLength(), Recs: splatRecords(mm)}
 		if e != nil {
 			o.Msg = e.Error()
@@ -285,10 +385,23 @@ func decodeHere(format string, data []byte, kind int) (o outcome) {
 		return o
 	case "spz":
 		var c *spz.Cloud
-		c, err = spz.Read(mkReader(kind, data))
+		if kind == kindFile {
+			c, err = spz.Load(tmpPath) // panics with the error: class "reported"
+		} else {
+			c, err = spz.Read(rd)
+		}
 		if err == nil {
 			m = &c.Mesh
 		}
+	case "spzh":
+		h, herr := spz.ReadHeader(rd)
+		if herr != nil {
+			return outcome{Cls: clsErr, Msg: herr.Error()}
+		}
+		if h == nil {
+			return outcome{Cls: clsCrash, Msg: "nil header without an error"}
+		}
+		return outcome{Cls: clsOk, N: int(h.NumPoints), Digest: fmt.Sprintf("%+v", *h)}
 	default:
 		return outcome{Cls: clsErr, Msg: "unknown format " + format}
 	}
@@ -299,7 +412,7 @@ func decodeHere(format string, data []byte, kind int) (o outcome) {
 		return outcome{Cls: clsCrash, Msg: "nil mesh without an error"}
 	}
 	o = outcome{Cls: clsOk, N: m.AttributeLength(), Digest: meshDigest(*m)}
-	if format == "pts" {
+	if format == "pts" && len(data) < 1<<16 {
 		o.Pts = ptsResultCoq(m)
 	}
 	return o
@@ -340,14 +453,35 @@ type worker struct {
 }
 
 type pool struct {
-	idle  chan *worker
-	mu    sync.Mutex
-	hangs int
-	died  int
-	calls int
+	idle    chan *worker
+	mu      sync.Mutex
+	iso     sync.RWMutex // a decode that got no answer in time without using its CPU budget is retried alone
+	hangs   int
+	died    int
+	calls   int
+	starved int // decodes retried in isolation because the machine was too busy to answer within the wall limit
 }
 
-func newPool(n int) *pool { return &pool{idle: make(chan *worker, n)} }
+func newPool(n int) *pool {
+	return &pool{idle: make(chan *worker, n)}
+}
+
+// directory for the prefixes handed to the path-taking entry points (reader kind "file"); made on first use by the
+// parent, removed by pool.close
+var poolTmp string
+var poolTmpOnce sync.Once
+
+func tmpDir() string {
+	poolTmpOnce.Do(func() {
+		for _, d := range []string{"/dev/shm", os.TempDir()} {
+			if t, err := os.MkdirTemp(d, "c14-"); err == nil {
+				poolTmp = t
+				return
+			}
+		}
+	})
+	return poolTmp
+}
 
 func spawn() (*worker, error) {
 	exe, err := os.Executable()
@@ -355,7 +489,7 @@ func spawn() (*worker, error) {
 		return nil, err
 	}
 	cmd := exec.Command(exe, "-worker")
-	cmd.Env = append(os.Environ(), "GOTRACEBACK=none", "GOMAXPROCS=2")
+	cmd.Env = append(os.Environ(), "GOTRACEBACK=none", "GOMAXPROCS=2", "C14_TMP="+tmpDir())
 	in, _ := cmd.StdinPipe()
 	outp, _ := cmd.StdoutPipe()
 	w := &worker{cmd: cmd, in: in, out: bufio.NewReaderSize(outp, 1<<16), stderr: &bytes.Buffer{}}
@@ -372,9 +506,37 @@ func (w *worker) kill() {
 	w.cmd.Wait()
 }
 
-func deadlineFor(n int) time.Duration {
-	// the property: time proportional to the input -- 2 s + 1 us per byte
-	return 2*time.Second + time.Duration(n)*time.Microsecond
+// The property: time proportional to the input.  The budget is CPU time of the decoding process (user + system,
+// read from /proc/<pid>/stat), which does not depend on how many other processes share the machine: 1 s + 1 us per
+// byte and reader kind.  A decoder that loops burns the budget and is class "hang".  Wall-clock time is only an
+// inactivity limit (30 s + 10 us/byte): a decode that gets no answer within it although its CPU budget is not used
+// up was starved by the machine (or is blocked): it is retried once, alone, in a fresh process with twice the wall
+// limit, and only then reported.
+func cpuBudgetFor(n int) time.Duration {
+	return time.Second + time.Duration(n)*time.Duration(len(readerKinds))*time.Microsecond
+}
+func wallLimitFor(n int) time.Duration {
+	return 30*time.Second + time.Duration(n)*10*time.Microsecond
+}
+func deadlineFor(n int) time.Duration { return cpuBudgetFor(n) }
+
+// CPU time (user + system) a live process has used so far
+func procCPU(pid int) time.Duration {
+	raw, err := os.ReadFile(fmt.Sprintf("/proc/%d/stat", pid))
+	if err != nil {
+		return 0
+	}
+	s := string(raw)
+	if i := strings.LastIndexByte(s, ')'); i >= 0 {
+		s = s[i+1:]
+	}
+	f := strings.Fields(s) // f[0] = state; utime, stime are fields 14, 15 of the line = f[11], f[12]
+	if len(f) < 13 {
+		return 0
+	}
+	ut, _ := strconv.ParseInt(f[11], 10, 64)
+	st, _ := strconv.ParseInt(f[12], 10, 64)
+	return time.Duration(ut+st) * 10 * time.Millisecond // USER_HZ = 100
 }
 
 func fmtCode(format string) byte {
@@ -405,7 +567,7 @@ func vmHWM(pid int) int64 {
 }
 
 // roundTrip sends one request to w; ok=false means w must not be reused (killed or dead).
-func (p *pool) roundTrip(w *worker, format string, data []byte, wantPeak bool, kind int) (o outcome, ok bool) {
+func (p *pool) roundTrip(w *worker, format string, data []byte, wantPeak bool, kind int, wallFactor int) (o outcome, ok bool) {
 	type ans struct {
 		o   outcome
 		err error
@@ -433,50 +595,78 @@ func (p *pool) roundTrip(w *worker, format string, data []byte, wantPeak bool, k
 		err := json.Unmarshal(js, &o)
 		ch <- ans{o: o, err: err}
 	}()
-	select {
-	case a := <-ch:
-		if a.err != nil {
-			// the child died: Go's out-of-memory is a fatal error, not a panic
-			w.in.Close()
-			w.cmd.Wait()
-			msg := strings.TrimSpace(w.stderr.String())
-			if i := strings.Index(msg, "\n\n"); i > 0 {
-				msg = msg[:i]
+	cpu0 := procCPU(w.cmd.Process.Pid)
+	start := time.Now()
+	budget, wall := cpuBudgetFor(len(data)), time.Duration(wallFactor)*wallLimitFor(len(data))
+	tick := time.NewTicker(50 * time.Millisecond)
+	defer tick.Stop()
+	for {
+		select {
+		case a := <-ch:
+			if a.err != nil {
+				// the child died: Go's out-of-memory is a fatal error, not a panic
+				w.in.Close()
+				w.cmd.Wait()
+				msg := strings.TrimSpace(w.stderr.String())
+				if i := strings.Index(msg, "\n\n"); i > 0 {
+					msg = msg[:i]
+				}
+				if len(msg) > 200 {
+					msg = msg[:200]
+				}
+				o = outcome{Cls: clsCrash, Msg: "decoding process died: " + strings.ReplaceAll(msg, "\n", " / ")}
+				if ru, isRu := w.cmd.ProcessState.SysUsage().(*syscall.Rusage); isRu && ru != nil {
+					o.PeakMB = ru.Maxrss / 1024
+				}
+				p.mu.Lock()
+				p.died++
+				p.mu.Unlock()
+				return o, false
 			}
-			if len(msg) > 200 {
-				msg = msg[:200]
+			if wantPeak {
+				a.o.PeakMB = vmHWM(w.cmd.Process.Pid)
 			}
-			o = outcome{Cls: clsCrash, Msg: "decoding process died: " + strings.ReplaceAll(msg, "\n", " / ")}
-			if ru, isRu := w.cmd.ProcessState.SysUsage().(*syscall.Rusage); isRu && ru != nil {
-				o.PeakMB = ru.Maxrss / 1024
+			return a.o, true
+		case <-tick.C:
+			used := procCPU(w.cmd.Process.Pid) - cpu0
+			if used > budget {
+				peak := vmHWM(w.cmd.Process.Pid)
+				w.kill()
+				p.mu.Lock()
+				p.hangs++
+				p.mu.Unlock()
+				return outcome{Cls: clsHang, PeakMB: peak, CpuUs: used.Microseconds(),
+					Msg: fmt.Sprintf("deadline exceeded: %.1f s of CPU time used for %d bytes (budget %.1f s), no result", used.Seconds(), len(data), budget.Seconds())}, false
 			}
-			p.mu.Lock()
-			p.died++
-			p.mu.Unlock()
-			return o, false
+			if time.Since(start) > wall {
+				peak := vmHWM(w.cmd.Process.Pid)
+				w.kill()
+				return outcome{Cls: clsHang, Starved: true, PeakMB: peak, CpuUs: used.Microseconds(),
+					Msg: fmt.Sprintf("deadline exceeded: no result within %.0f s of wall time (%.2f s of CPU time used, not spinning: blocked)", wall.Seconds(), used.Seconds())}, false
+			}
 		}
-		if wantPeak {
-			a.o.PeakMB = vmHWM(w.cmd.Process.Pid)
-		}
-		return a.o, true
-	case <-time.After(deadlineFor(len(data))):
-		peak := vmHWM(w.cmd.Process.Pid)
-		w.kill()
-		p.mu.Lock()
-		p.hangs++
-		p.mu.Unlock()
-		return outcome{Cls: clsHang, Msg: "deadline exceeded", PeakMB: peak}, false
 	}
 }
 
 // decode runs one decode in a pooled child process under the deadline.
 func (p *pool) decode(format string, data []byte) outcome {
-	o := p.decodeKind(format, data, kindAll)
-	if o.Cls == clsHang {
+	return p.decodeWith(format, data, kindAll)
+}
+
+func (p *pool) decodeWith(format string, data []byte, kinds int) outcome {
+	o := p.decodeKind(format, data, kinds)
+	if o.Cls == clsHang && !o.Starved {
 		// which reader kind misses the deadline?
-		for k := range readerKinds {
+		ks := bigKinds
+		if kinds == kindAll {
+			ks = nil
+			for k := range readerKinds {
+				ks = append(ks, k)
+			}
+		}
+		for _, k := range ks {
 			if ok := p.decodeKind(format, data, k); ok.Cls == clsHang {
-				o.Msg = readerKinds[k] + ": deadline exceeded"
+				o.Msg = readerKinds[k] + ": " + ok.Msg
 				break
 			}
 		}
@@ -497,13 +687,43 @@ func (p *pool) decodeKind(format string, data []byte, kind int) outcome {
 			return outcome{Cls: clsCrash, Msg: "cannot start decoding process: " + err.Error()}
 		}
 	}
-	o, ok := p.roundTrip(w, format, data, false, kind)
+	p.iso.RLock()
+	o, ok := p.roundTrip(w, format, data, false, kind, 1)
+	p.iso.RUnlock()
 	if ok {
 		select {
 		case p.idle <- w:
 		default:
 			w.kill()
 		}
+	}
+	if o.Starved {
+		o = p.retryAlone(format, data, false, kind)
+	}
+	return o
+}
+
+// retryAlone: the decode got no answer within the wall limit without using its CPU budget -- a busy machine, not
+// (yet) a defect of the decoder.  Wait until no other decode of this harness runs, then try once more in a fresh
+// process with twice the wall limit; what happens then is the observation.
+func (p *pool) retryAlone(format string, data []byte, wantPeak bool, kind int) outcome {
+	p.mu.Lock()
+	p.starved++
+	p.mu.Unlock()
+	p.iso.Lock()
+	defer p.iso.Unlock()
+	w, err := spawn()
+	if err != nil {
+		return outcome{Cls: clsCrash, Msg: "cannot start decoding process: " + err.Error()}
+	}
+	o, ok := p.roundTrip(w, format, data, wantPeak, kind, 2)
+	if ok {
+		w.kill()
+	}
+	if o.Starved {
+		p.mu.Lock()
+		p.hangs += hangLimit // a blocked decoder: one confirmed observation is enough
+		p.mu.Unlock()
 	}
 	return o
 }
@@ -514,9 +734,14 @@ func (p *pool) decodeFresh(format string, data []byte) outcome {
 	if err != nil {
 		return outcome{Cls: clsCrash, Msg: "cannot start decoding process: " + err.Error()}
 	}
-	o, ok := p.roundTrip(w, format, data, true, kindAll)
+	p.iso.RLock()
+	o, ok := p.roundTrip(w, format, data, true, kindAll, 1)
+	p.iso.RUnlock()
 	if ok {
 		w.kill()
+	}
+	if o.Starved {
+		o = p.retryAlone(format, data, true, kindAll)
 	}
 	return o
 }
@@ -527,13 +752,16 @@ func (p *pool) close() {
 		case w := <-p.idle:
 			w.kill()
 		default:
+			if poolTmp != "" {
+				os.RemoveAll(poolTmp)
+			}
 			return
 		}
 	}
 }
 
 // decodeAll decodes data[:k] for every k of cuts, in parallel, results in cut order.
-func (p *pool) decodeAll(format string, data []byte, cuts []int, par int) []outcome {
+func (p *pool) decodeAll(format string, data []byte, cuts []int, par int, kinds int) []outcome {
 	out := make([]outcome, len(cuts))
 	var wg sync.WaitGroup
 	sem := make(chan struct{}, par)
@@ -543,7 +771,7 @@ func (p *pool) decodeAll(format string, data []byte, cuts []int, par int) []outc
 		go func(i, k int) {
 			defer wg.Done()
 			defer func() { <-sem }()
-			out[i] = p.decode(format, data[:k])
+			out[i] = p.decodeWith(format, data[:k], kinds)
 		}(i, k)
 	}
 	wg.Wait()
